@@ -22,6 +22,13 @@ struct State {
     /// windows in which the visible seqno was already above a drawn, still unpublished seqno:
     /// (thread, ordinal, seqno, tick at draw, tick at publish, visible seqno seen)
     premature: Vec<(String, u64, u64, u64, u64, u64)>,
+    /// journal critical section monitor: thread currently between a `*.drawn` / `ingest.locked`
+    /// point and its `*.before_publish` / `ingest.finished` point (all four lie inside the journal lock)
+    cs_owner: Option<(String, &'static str, u64)>,
+    cs_overlaps: Vec<String>,
+    cs_sections: u64,
+    /// extra delay (microseconds) at one named point
+    named_delay: Option<(&'static str, u64)>,
 }
 
 #[derive(Default, Clone)]
@@ -45,6 +52,7 @@ static GLOBAL: OnceLock<Arc<Global>> = OnceLock::new();
 static DELAY_PERMILLE: AtomicU64 = AtomicU64::new(0);
 static DELAY_SEED: AtomicU64 = AtomicU64::new(1);
 static LOGGING: AtomicBool = AtomicBool::new(false);
+static CS_MONITOR: AtomicBool = AtomicBool::new(false);
 static COUNTING: AtomicBool = AtomicBool::new(true);
 pub static CLOCK: AtomicU64 = AtomicU64::new(1);
 
@@ -79,6 +87,27 @@ fn handler(name: &'static str, arg: u64) {
         if LOGGING.load(Ordering::Relaxed) {
             let t = tick();
             st.log.push((t, name, arg, thread_name()));
+        }
+        if CS_MONITOR.load(Ordering::Relaxed) {
+            let enter = name == "batch.drawn" || name == "write.drawn" || name == "ingest.locked";
+            let leave = name == "batch.before_publish" || name == "write.before_publish" || name == "ingest.finished";
+            if enter {
+                let me = thread_name();
+                if let Some((o, p, a)) = st.cs_owner.clone() {
+                    if o != me && st.cs_overlaps.len() < 5 {
+                        st.cs_overlaps.push(format!(
+                            "thread {me} reached {name}({arg}) while thread {o} was still between {p}({a}) and its publish point: two journal critical sections overlap"
+                        ));
+                    }
+                }
+                st.cs_owner = Some((me, name, arg));
+                st.cs_sections += 1;
+            } else if leave {
+                let me = thread_name();
+                if st.cs_owner.as_ref().is_some_and(|(o, _, _)| *o == me) {
+                    st.cs_owner = None;
+                }
+            }
         }
         if st.probe.is_some() {
             if name == "batch.drawn" || name == "write.drawn" {
@@ -133,6 +162,17 @@ fn handler(name: &'static str, arg: u64) {
                 }
             }
             return;
+        }
+    }
+    {
+        let nd = {
+            let st = g.st.lock().unwrap_or_else(|e| e.into_inner());
+            st.named_delay
+        };
+        if let Some((n, us)) = nd {
+            if n == name {
+                std::thread::sleep(std::time::Duration::from_micros(us));
+            }
         }
     }
     let pm = DELAY_PERMILLE.load(Ordering::Relaxed);
@@ -300,4 +340,30 @@ pub fn take_premature() -> Vec<(String, u64, u64, u64, u64, u64)> {
     };
     drop(old);
     v
+}
+
+
+/// Journal critical section exclusivity monitor (online invariant at the hook points).
+pub fn cs_monitor(on: bool) {
+    let g = global();
+    let mut st = g.st.lock().unwrap_or_else(|e| e.into_inner());
+    st.cs_owner = None;
+    st.cs_overlaps.clear();
+    st.cs_sections = 0;
+    CS_MONITOR.store(on, Ordering::SeqCst);
+}
+
+/// Returns (number of critical sections observed, overlaps found) and switches the monitor off.
+pub fn cs_take() -> (u64, Vec<String>) {
+    CS_MONITOR.store(false, Ordering::SeqCst);
+    let g = global();
+    let mut st = g.st.lock().unwrap_or_else(|e| e.into_inner());
+    st.cs_owner = None;
+    (std::mem::take(&mut st.cs_sections), std::mem::take(&mut st.cs_overlaps))
+}
+
+pub fn set_named_delay(d: Option<(&'static str, u64)>) {
+    let g = global();
+    let mut st = g.st.lock().unwrap_or_else(|e| e.into_inner());
+    st.named_delay = d;
 }
